@@ -17,6 +17,7 @@ const (
 	VTInt = iota
 	VTFloat
 	VTDuration
+	VTTime // only count, count_distinct, max, array_agg, array_agg_distinct accept it
 )
 
 // AggNames is the catalogue of aggregates.Aggregates indexed by the harness parameter AGG.
@@ -37,7 +38,8 @@ var AggNames = []string{
 func isFloatSum(agg int) bool { return agg >= 2 && agg <= 5 }
 
 // Prototype returns the real prototype registered in aggregates.Aggregates for aggregate AGG on
-// values of kind vt (the overload whose argument type is vt; count and array_agg have one overload).
+// values of kind vt (the overload whose argument type is vt; count and array_agg have one overload);
+// nil when the aggregate has no overload for vt.
 func Prototype(agg, vt int) func() nodes.Aggregate {
 	det, ok := aggregates.Aggregates[AggNames[agg]]
 	if !ok {
@@ -46,13 +48,13 @@ func Prototype(agg, vt int) func() nodes.Aggregate {
 	if len(det.Descriptors) == 1 {
 		return det.Descriptors[0].Prototype
 	}
-	want := []octosql.TypeID{octosql.TypeIDInt, octosql.TypeIDFloat, octosql.TypeIDDuration}[vt]
+	want := []octosql.TypeID{octosql.TypeIDInt, octosql.TypeIDFloat, octosql.TypeIDDuration, octosql.TypeIDTime}[vt]
 	for _, d := range det.Descriptors {
 		if d.ArgumentType.TypeID == want {
 			return d.Prototype
 		}
 	}
-	panic("vagg: no overload")
+	return nil // no overload for this argument type (e.g. min(Time), sum(Time))
 }
 
 // FloatSumDomain is the value table of Float inputs to sum/avg (and their DISTINCT variants): small
@@ -90,12 +92,26 @@ func NDVal(name string, vt int, floatSum bool, dom, fdom int) octosql.Value {
 			zzverif.Assume(zzverif.And(x >= 0, x < int64(dom)))
 		}
 		return octosql.NewDuration(time.Duration(x))
+	case VTTime:
+		// whole seconds in 1970..2200 (or [0, dom)), forked over the Local / UTC representation
+		x := zzverif.Int64(name)
+		if dom > 0 {
+			zzverif.Assume(zzverif.And(x >= 0, x < int64(dom)))
+		} else {
+			zzverif.Assume(zzverif.And(x >= 0, x < 7258118400))
+		}
+		t := time.Unix(x, 0)
+		if zzverif.Choice(name+".utc", 2) == 1 {
+			t = t.UTC()
+		}
+		return octosql.NewTime(t)
 	}
 	panic("vagg: bad value kind")
 }
 
-// ValEq is Value.Compare-equality (row identity: NULL = NULL, all NaNs equal, +0 = -0) on the value
-// shapes the aggregates can return here (NULL, Int, Float, Duration, List of those), branch-free
+// ValEq is Value.Compare-equality (row identity: NULL = NULL, all NaNs equal, +0 = -0, times by
+// instant) on the value shapes the aggregates can return here (NULL, Int, Float, Duration, Time
+// in whole seconds, List of those), branch-free
 // on scalars. List lengths are concrete.
 func ValEq(a, b octosql.Value) bool {
 	if a.TypeID == octosql.TypeIDList || b.TypeID == octosql.TypeIDList {
@@ -110,7 +126,7 @@ func ValEq(a, b octosql.Value) bool {
 	}
 	feq := zzverif.Or(zzverif.F64Eq(a.Float, b.Float), zzverif.And(zzverif.F64IsNaN(a.Float), zzverif.F64IsNaN(b.Float)))
 	return zzverif.And(a.TypeID == b.TypeID,
-		zzverif.And(a.Int == b.Int, zzverif.And(a.Duration == b.Duration, feq)))
+		zzverif.And(a.Int == b.Int, zzverif.And(a.Duration == b.Duration, zzverif.And(feq, a.Time.Unix() == b.Time.Unix()))))
 }
 
 // Step is one element of an aggregate history.
